@@ -304,6 +304,10 @@ func NewReporter(opts Options) (Reporter, error) {
 		internalTags[k] = v
 	}
 
+	// The clock is refreshed by timeLoop; give it a value now so that metrics
+	// reported before that goroutine first runs do not carry timestamp zero.
+	r.now.Store(time.Now().UnixNano())
+
 	r.batchSizeHistogram = r.AllocateHistogram("tally.internal.batch-size", internalTags, buckets)
 	r.numBatchesCounter = r.AllocateCounter("tally.internal.num-batches", internalTags)
 	r.numMetricsCounter = r.AllocateCounter("tally.internal.num-metrics", internalTags)
